@@ -36,6 +36,9 @@ theorem exec_cfgs (sys : Sys Root) (p : Proc Root Chain) (tbl : List (List (Clie
     simp only [Proc.exec, cfgTableStep]
     split <;> exact h
   | connect e => simpa [Proc.exec, cfgTableStep] using h
+  | endpointNewFrom e =>
+    simp only [Proc.exec, cfgTableStep]
+    split <;> exact h
 
 theorem foldl_cfgs (sys : Sys Root) (prog : List (Stmt Root Chain)) (p : Proc Root Chain)
     (tbl : List (List (ClientOp Root Chain))) (h : p.cfgs = tbl.map ClientTlsConfig.build) :
@@ -75,6 +78,12 @@ theorem exec_extends (sys : Sys Root) (p : Proc Root Chain) (s : Stmt Root Chain
     · exact ⟨[], _, by simp, rfl⟩
     · exact ⟨[], [], by simp, by simp⟩
   | connect e => exact ⟨[], [], by simp [Proc.exec], by simp [Proc.exec]⟩
+  | endpointNewFrom e =>
+    simp only [Proc.exec]
+    split
+    · exact ⟨[], _, by simp, rfl⟩
+    · exact ⟨[], _, by simp, rfl⟩
+    · exact ⟨[], [], by simp, by simp⟩
 
 theorem foldl_extends (sys : Sys Root) (more : List (Stmt Root Chain)) (p : Proc Root Chain) :
     ∃ a b, (more.foldl (Proc.exec sys) p).cfgs = p.cfgs ++ a ∧
@@ -144,6 +153,11 @@ def ProcShared.exec (sys : Sys Root) (p : ProcShared Root Chain) : Stmt Root Cha
     | some (.error err), some _ => { p with eps := p.eps ++ [.error err] }
     | _, _ => p
   | .connect _ => p
+  | .endpointNewFrom e =>
+    match p.eps[e]? with
+    | some (.ok ep) => { p with eps := p.eps ++ [Endpoint.newFrom sys ep] }
+    | some (.error err) => { p with eps := p.eps ++ [.error err] }
+    | none => p
 
 def ProcShared.run (sys : Sys Root) (prog : List (Stmt Root Chain)) : ProcShared Root Chain :=
   prog.foldl (ProcShared.exec sys) {}
